@@ -174,8 +174,15 @@ LenientCases == <<
   [kind |-> "lenient", fn |-> HsFn, len |-> 0, bytes |-> <<11, 0, 0, 8, 0, 0, 5, 0, 0, 1, 48, 0>>, val |-> 0, extra |-> 0],
   [kind |-> "lenient", fn |-> HsFn, len |-> 0, bytes |-> <<11, 0, 0, 9, 0, 0, 6, 0, 0, 1, 48, 0, 0>>, val |-> 0, extra |-> 0] >>
 
+(* body parsers that take the declared length as an argument: the argument, not the buffer, bounds what is read *)
+LenFns == <<"parse_tls_handshake_msg_newsessionticket", "parse_tls_handshake_msg_serverkeyexchange", "parse_tls_handshake_msg_serverdone",
+            "parse_tls_handshake_msg_certificateverify", "parse_tls_handshake_msg_clientkeyexchange", "parse_tls_handshake_msg_finished">>
+LenArgCases ==
+  Concat([f \in 1..Len(LenFns) |->
+    Concat([l \in 1..8 |->
+      [k \in 1..10 |-> [kind |-> "lenarg", fn |-> LenFns[f], len |-> l - 1, bytes |-> Fill(f + l, k - 1), val |-> 0, extra |-> 0]]])])
 ASSUME TLCSet(4, SelectSeq([j \in 1..Len(Vals) |-> j], LAMBDA j : Len(BodyOf(j)) <= (IF Thorough THEN 400 ELSE 120) /\ (Thorough \/ j % 3 = 0)))
-ASSUME TLCSet(1, MsgCases \o LongTailCases \o BodyCases \o CutCases \o HlCases \o RejectCases \o UnknownTypeCases \o LenientCases)
+ASSUME TLCSet(1, MsgCases \o LongTailCases \o LenArgCases \o BodyCases \o CutCases \o HlCases \o RejectCases \o UnknownTypeCases \o LenientCases)
 Cases == TLCGet(1)
 V(j) == TLCGet(2)[j]
 N == Len(Cases)
@@ -217,8 +224,10 @@ WithinDeclared ==
 
 Pin ==
   LET c == Cases[i] IN
-  IF c.kind \in {"enc", "body"} THEN "full"
-  ELSE IF c.kind = "reject" THEN "novalue"
+  IF c.kind \in {"enc", "body"} \/ (c.kind = "lenarg" /\ res.k = "ok") THEN "full"
+  (* a malformed but COMPLETE message is an error, not a request for more bytes (a caller would wait, a defragmenter buffer): *)
+  (* where the specification answers with an error the class is pinned, not only the absence of a value                       *)
+  ELSE IF res.k \in {"err", "fail"} THEN "reject"
   ELSE IF res.k # "ok" THEN "novalue" ELSE "none"
 
 EmitCase ==
